@@ -344,6 +344,9 @@ class FuncORD:
     # in-place sort after the last definition and before the use
     if p.kind in ('STORAGE', 'BADSORT'):
       for (ln, key, st) in self.sorts.get(name, []):
+        if last_def <= ln < at_line and any(ln < l2 < at_line for (l2, _s) in self.appends.get(name, [])) and self.sort_key_ok(key) is not False:
+          # sorted by time, then something is appended (a closing sentinel, say): whether the appended element keeps the order is not read
+          return Prov('BADSORT', UNK + '%s is sorted and then appended to before it is traversed' % name)
         if last_def <= ln < at_line and not any(ln < l2 < at_line for (l2, _s) in self.appends.get(name, [])):
           ok = self.sort_key_ok(key)
           tp = self._tuple_position_is_time(ast.Name(id=name, ctx=ast.Load()), int(ok.split(':')[1]), st) if (isinstance(ok, str) and ok.startswith('tuple:')) else False
